@@ -1,6 +1,7 @@
 (** C05 — soft validation enforces exactly the declared constraints, identically in every protocol.
     Property theorems only. *)
-From SpyneV Require Import Base.Digits Base.Ext C08.IntModel C05.Valid C05.Proofs Gen.NumTypes.
+From SpyneV Require Import Base.Digits Base.Ext C08.IntModel C08.DtModel C05.Valid C05.Proofs Gen.NumTypes.
+From SpyneV Require Import C05.Facets Gen.FacetTypes C05.FacetModel C05.FacetProofs C05.ArrayModel C05.ArrayProofs.
 
 (** validate_native of every fixed-width integer class — generated from the source — equals the
     specification for ALL customised attribute sets and ALL integers *)
@@ -68,3 +69,172 @@ Proof.
   cbn. repeat split; try discriminate; intros x m Hin;
     repeat (destruct Hin as [Hin|Hin]; [inversion Hin; reflexivity|]); try contradiction.
 Qed.
+
+(** ---------------------------------------------------------------- Unicode facets
+    [class_Unicode] carries validate_string / validate_native of Unicode as GENERATED from the source;
+    [fullm] is the regular expression engine ("the compiled pattern matches the whole string"). *)
+
+(** together they decide exactly: min_len <= length in code points <= max_len, whole-string pattern,
+    enumeration — for every attribute set, every regex oracle, every string *)
+Theorem C05_unicode_checks_are_spec : forall fullm a s,
+  st_vs class_Unicode a s && st_vn class_Unicode fullm a s = conforms_text fullm a s.
+Proof. exact unicode_checks_are_spec. Qed.
+
+Theorem C05_unicode_none_is_spec : forall a,
+  st_vs_none class_Unicode a && st_vn_none class_Unicode a = sa_nillable a.
+Proof. exact unicode_none_is_spec. Qed.
+
+(** XML / SOAP element (an element without text holds the empty string), XML attribute, hierarchical
+    dict documents (JSON, YAML, MessagePack) and the flat one (HttpRpc): each path delivers the string
+    iff it conforms, and a Client.ValidationError otherwise *)
+Theorem C05_text_paths_are_spec : forall fullm a,
+  (forall txt, xml_elem_text class_Unicode fullm a false txt
+               = verdict_text fullm a (match txt with None => [] | Some s => s end))
+  /\ (forall s, xml_attr_text class_Unicode fullm a s = verdict_text fullm a s)
+  /\ (forall s, hier_text class_Unicode fullm a (Some s) = verdict_text fullm a s)
+  /\ (forall s, flat_text class_Unicode fullm a s = verdict_text fullm a s).
+Proof. exact text_paths_are_spec. Qed.
+
+(** the same string: the same verdict over all six protocols and at the attribute position *)
+Theorem C05_text_verdicts_agree : forall fullm a s,
+  xml_elem_text class_Unicode fullm a false (Some s) = hier_text class_Unicode fullm a (Some s)
+  /\ xml_attr_text class_Unicode fullm a s = hier_text class_Unicode fullm a (Some s)
+  /\ flat_text class_Unicode fullm a s = hier_text class_Unicode fullm a (Some s).
+Proof. exact text_verdicts_agree. Qed.
+
+(** null: xsi:nil over XML, null in a dict document — accepted iff nillable, identically *)
+Theorem C05_text_null_verdicts_agree : forall fullm a txt,
+  xml_elem_text class_Unicode fullm a true txt = hier_text class_Unicode fullm a None
+  /\ hier_text class_Unicode fullm a None = verdict_none (sa_nillable a).
+Proof. exact text_null_verdicts. Qed.
+
+Theorem C05_text_paths_total : forall fullm a,
+  (forall nil txt, is_crash (xml_elem_text class_Unicode fullm a nil txt) = false)
+  /\ (forall v, is_crash (hier_text class_Unicode fullm a v) = false)
+  /\ (forall s, is_crash (xml_attr_text class_Unicode fullm a s) = false)
+  /\ (forall s, is_crash (flat_text class_Unicode fullm a s) = false).
+Proof. exact text_paths_total. Qed.
+
+(** ---------------------------------------------------------------- date/time range facets *)
+
+(** DateTime.validate_native (generated) = the range facets as facets of the INSTANT, after the
+    naive-value rule; all attribute sets, all values *)
+Theorem C05_datetime_native_is_spec : forall a v, vn_DateTime a v = conforms_datetime a v.
+Proof. exact datetime_native_is_spec. Qed.
+
+(** a value without tzinfo is judged as the same wall-clock fields in spyne.LOCAL_TZ *)
+Theorem C05_datetime_naive_rule : forall a d t,
+  vn_DateTime a (mkdt d t None) = vn_DateTime a (mkdt d t (Some local_tz_minutes)).
+Proof. exact datetime_naive_rule. Qed.
+
+(** the same instant written with another UTC offset gets the same verdict *)
+Theorem C05_datetime_verdict_of_instant : forall a v w,
+  dt_off v <> None -> dt_off w <> None -> instant v = instant w -> vn_DateTime a v = vn_DateTime a w.
+Proof. exact datetime_verdict_of_instant. Qed.
+
+(** the instant orders values with the same offset exactly like their fields (what Python compares
+    when both operands carry the same tzinfo) *)
+Theorem C05_datetime_lex_instant : forall x y,
+  valid_datetime x = true -> valid_datetime y = true -> dt_off x = dt_off y ->
+  datetime_lex_ltb x y = (instant x <? instant y).
+Proof. exact datetime_lex_instant. Qed.
+
+(** Date (which inherits DateTime.validate_native) and Time: field-wise comparisons as coded = range
+    facets over the day number / the microsecond of the day *)
+Theorem C05_date_native_is_spec : forall a d,
+  bounds_ok (fun d => valid_date d = true) a -> valid_date d = true ->
+  vn_Date a d = conforms_range ordinal a d.
+Proof. exact date_native_is_spec. Qed.
+
+Theorem C05_time_native_is_spec : forall a t,
+  bounds_ok (fun t => valid_tod t = true) a -> valid_tod t = true ->
+  vn_Time a t = conforms_range tod_us a t.
+Proof. exact time_native_is_spec. Qed.
+
+(** the text Spyne writes for a value is accepted iff the value conforms (all six protocols carry
+    date/time values as this text; reader = the C08 model) *)
+Theorem C05_datetime_leaf_spec : forall a v, valid_datetime v = true ->
+  datetime_doc_leaf a (Some (datetime_iso v)) = if conforms_datetime a v then Ok (Some v) else VFault.
+Proof. exact datetime_doc_leaf_spec. Qed.
+
+Theorem C05_date_leaf_spec : forall a d,
+  bounds_ok (fun d => valid_date d = true) a -> valid_date d = true ->
+  date_doc_leaf a (Some (date_iso d)) = if conforms_range ordinal a d then Ok (Some d) else VFault.
+Proof. exact date_doc_leaf_spec. Qed.
+
+Theorem C05_time_leaf_spec : forall a t,
+  bounds_ok (fun t => valid_tod t = true) a -> valid_tod t = true ->
+  time_doc_leaf a (Some (time_iso t)) = if conforms_range tod_us a t then Ok (Some t) else VFault.
+Proof. exact time_doc_leaf_spec. Qed.
+
+(** XML / SOAP path = dict-document path for every text, for an element without text and for null *)
+Theorem C05_range_paths_agree : forall txt,
+  (forall a, datetime_xml_leaf a false txt = datetime_doc_leaf a txt
+             /\ datetime_xml_leaf a true txt = datetime_doc_leaf a None)
+  /\ (forall a, date_xml_leaf a false txt = date_doc_leaf a txt /\ date_xml_leaf a true txt = date_doc_leaf a None)
+  /\ (forall a, time_xml_leaf a false txt = time_doc_leaf a txt /\ time_xml_leaf a true txt = time_doc_leaf a None).
+Proof. exact range_paths_agree. Qed.
+
+(** non-vacuity *)
+Example C05_ex_unicode :
+  let a := {| sa_nillable := false; sa_min_len := 2; sa_max_len := Fin 3; sa_has_pattern := true; sa_values := [] |} in
+  let lower := forallb (fun c => (97 <=? c) && (c <=? 122))%Z in
+  xml_elem_text class_Unicode lower a false (Some [97; 98]%Z) = Ok (Some [97; 98]%Z)
+  /\ xml_elem_text class_Unicode lower a false None = VFault            (* <x/> : the empty string *)
+  /\ hier_text class_Unicode lower a (Some [97]%Z) = VFault             (* too short *)
+  /\ flat_text class_Unicode lower a [97; 66]%Z = VFault                (* pattern *)
+  /\ xml_attr_text class_Unicode lower a [97; 98; 99; 100]%Z = VFault   (* too long *)
+  /\ hier_text class_Unicode lower a None = VFault                      (* not nillable *)
+  /\ conforms_text lower a [97; 98; 99]%Z = true.
+Proof. vm_compute. repeat split. Qed.
+
+Example C05_ex_datetime :
+  (* 2020-01-01T01:00+02:00 is 2019-12-31T23:00Z: before the bound although its fields are after it *)
+  vn_DateTime ex_dt_attrs (ex_dt 2020 1 1 1 0 (Some 120%Z)) = false
+  /\ vn_DateTime ex_dt_attrs (ex_dt 2019 12 31 23 0 (Some (-120)%Z)) = true
+  /\ vn_DateTime ex_dt_attrs (ex_dt 2020 1 1 0 0 None) = true
+  /\ instant (ex_dt 2020 1 1 2 0 (Some 120%Z)) = instant (ex_dt 2020 1 1 0 0 (Some 0%Z))
+  /\ valid_datetime (ex_dt 2020 6 1 12 0 (Some 330%Z)) = true
+  /\ datetime_doc_leaf ex_dt_attrs (Some (datetime_iso (ex_dt 2020 6 1 12 0 (Some 330%Z)))) = Ok (Some (ex_dt 2020 6 1 12 0 (Some 330%Z)))
+  /\ datetime_xml_leaf ex_dt_attrs false (Some (datetime_iso (ex_dt 2021 1 1 0 0 (Some 0%Z)))) = VFault.
+Proof. vm_compute. repeat split. Qed.
+
+Example C05_ex_date_time :
+  let da := {| ra_nillable := true; ra_gt := None; ra_ge := mkdate 2020 1 1; ra_lt := None; ra_le := mkdate 2020 12 31; ra_values := [] |} in
+  let ta := {| ra_nillable := true; ra_gt := Some (mktod 9 0 0 0); ra_ge := mktod 0 0 0 0; ra_lt := None; ra_le := mktod 17 0 0 0; ra_values := [] |} in
+  bounds_ok (fun d => valid_date d = true) da /\ bounds_ok (fun t => valid_tod t = true) ta
+  /\ vn_Date da (mkdate 2020 2 29) = true /\ vn_Date da (mkdate 2021 1 1) = false
+  /\ date_doc_leaf da (Some (date_iso (mkdate 2019 12 31))) = VFault
+  /\ vn_Time ta (mktod 9 0 0 0) = false /\ vn_Time ta (mktod 9 0 0 1) = true
+  /\ time_doc_leaf ta (Some (time_iso (mktod 17 0 0 0))) = Ok (Some (mktod 17 0 0 0))
+  /\ ordinal (mkdate 2020 3 1) = (ordinal (mkdate 2020 2 28) + 2)%Z.
+Proof.
+  cbv zeta. split; [|split]; [| |vm_compute; repeat split];
+    (split; [intros b Hb; try discriminate; inversion Hb; reflexivity|
+     split; [reflexivity|split; [intros b Hb; try discriminate; inversion Hb; reflexivity|split; [reflexivity|constructor]]]]).
+Qed.
+
+(** ---------------------------------------------------------------- arrays: the array element vs its items *)
+
+(** XML / SOAP and the hierarchical dict documents: the array element occurs within its own bounds and
+    holds a number of items within the item type's bounds — for every declaration and every request *)
+Theorem C05_array_occurrence_is_spec : forall d r,
+  xml_array d r = conforms_array d r /\ hier_array d r = conforms_array d r.
+Proof. exact array_occurrence_is_spec. Qed.
+
+(** the flat notation (HttpRpc) shows only items: no pair means the array is missing *)
+Theorem C05_flat_array_is_spec : forall d c, ad_wmax d = Fin 1 -> (ad_wmin d <= 1)%Z -> (0 <= c)%Z ->
+  flat_array d c = conforms_array d (flat_request c).
+Proof. exact flat_array_spec. Qed.
+
+Theorem C05_array_verdicts_agree : forall d r,
+  xml_array d r = hier_array d r
+  /\ (forall c, ad_wmax d = Fin 1 -> (ad_wmin d <= 1)%Z -> (0 <= c)%Z -> flat_request c = r -> flat_array d c = xml_array d r).
+Proof. exact array_verdicts_agree. Qed.
+
+Example C05_ex_array :
+  let d := {| ad_wmin := 1; ad_wmax := Fin 1; ad_mmin := 2; ad_mmax := Fin 3 |} in
+  xml_array d None = false /\ hier_array d (Some 1%Z) = false /\ xml_array d (Some 2%Z) = true
+  /\ flat_array d 3 = true /\ flat_array d 4 = false /\ flat_array d 0 = false
+  /\ flat_array {| ad_wmin := 0; ad_wmax := Fin 1; ad_mmin := 2; ad_mmax := PosInf |} 0 = true.
+Proof. vm_compute. repeat split. Qed.
